@@ -18,7 +18,39 @@ MANAGER_DIFF = dict(
     files={'internal/helpers/zz_verif_manager_test.go': 'go/harness/helpers/zz_verif_manager_test.go'},
     env={'VERIF_EPISODES': 300})
 
+CODEC_DIFF = dict(
+    name='codec', pkg='./', test='TestVerifCodecDiff',
+    files={'zz_verif_codec_test.go': 'go/harness/root/zz_verif_codec_test.go'},
+    env={'VERIF_CODEC_CASES': 4000, 'VERIF_CODEC_E2E': 25})
+
 PURE = {
+    'C12': dict(
+        module='Properties.C12', file='Properties/C12.v',
+        diffs=[CODEC_DIFF], params={},
+        footprint=['CJ', 'CP', 'CA', 'CM', 'validator:'],
+        oracle_kinds=['codec.'],
+        rule='records = observed job.Json() bytes for generated ids (every escape class of encoding/json, all of ASCII, '
+             'U+2028/9, 2/3/4-byte runes, empty, long, injection-like; a separate stream with malformed UTF-8) x 5 statuses '
+             'x payloads of 16 Go types; parseToJob[T] on those bytes; Add on stub persistent/priority/distributed queues '
+             '(entry handed to Enqueue); parseToJob[json.RawMessage] on hand-made/mutated entries (truncation, byte edits, '
+             'bad escapes, unknown status, wrong field types, extra/missing/reordered/case-folded keys, white space). '
+             'Each record is replayed on the extracted model (encode_env, encode_env_bytes, decode_env, submit_entry). '
+             'Where the strict-shape model says Malformed and Go accepts a foreign layout, or the typed payload does not '
+             'fit T, the record is counted out_of_model (#CODEC line), not a mismatch; '
+             'distinct_nontrivial = number of distinct checked record lines',
+        trusted_base=TB_COMMON + [
+            'go/harness/root/zz_verif_codec_test.go (generator, recorder, Go oracles)',
+            'ocaml/v_codec.ml scan_value: JSON value recogniser supplied as the model\'s scan_payload',
+            'modelled, not verified: encoding/json appendString / scanner string states / unquoteBytes and '
+            'unicode/utf8.DecodeRune of go1.24.0 (Codec.v, tied by the differential test)'],
+        assumptions=[
+            'scan_payload_splits_marshal_output: encoding/json, at a payload json.Marshal produced and followed by the '
+            'envelope\'s closing brace, consumes exactly that payload (payload encode/decode itself is encoding/json\'s; '
+            'payload fidelity = JSON round trip is checked only by the Go oracle)',
+            'ids are valid UTF-8 (otherwise C12_arbitrary_id_bytes: each malformed byte comes back as U+FFFD)',
+            'job status is one of the five constants (Status() "Unknown" is unreachable)',
+            'system level (event loop continues after a decode error, order of the jobs behind a bad entry, acknowledgement): controlled-scheduler family persist'],
+    ),
     'C15': dict(
         module='Properties.C15', file='Properties/C15.v',
         diffs=[MANAGER_DIFF],
@@ -55,4 +87,45 @@ PURE = {
                      'fewer than 2^63 items in a queue (the int64 length counter is modelled in Z)',
                      'system level (dispatcher dequeues under the queue mutex, one at a time): see C04 level_note'],
     ),
+}
+
+
+# ---------------------------------------------------------------- concurrent properties
+
+TB_CONC = TB_COMMON + [
+    'go/instr (rewriter: every sync / sync/atomic / time / channel / go operation of the library goes through the shim runtime; aborts on constructs it does not know)',
+    'go/vt (shim runtime + controlled scheduler: serial execution at synchronisation-operation granularity = sequentially consistent interleavings; fidelity of the shims to sync, sync/atomic, channels, sync.Pool, time.Ticker)',
+    'go/harness/root (scenario families, recording adapter and queue wrappers, projection of the log onto the slice models, monitors — monitors only search for / confirm failing histories)',
+    'modelled, not verified: Go runtime scheduler and memory model (data-race freedom is C19), context, the user\'s worker function (any outcome; assumed to return for progress statements)',
+]
+
+SLICE_JOB_RULE = ('episodes = scenario programs (client goroutines issuing API calls, parameters and schedule drawn from one seeded PRNG; '
+                  '2/3 uniform-random, 1/3 PCT schedules) run under the controlled scheduler on the instrumented library; every episode yields '
+                  'the linear log of synchronisation operations; per job object the log is projected onto the events of coq/SliceJob.v and '
+                  'replayed on the extracted model (traces_validated_against_impl = job blocks replayed); the property\'s monitor is evaluated '
+                  'on every history; distinct_nontrivial = distinct schedule hashes among episodes that submitted at least one job')
+
+CONC = {
+    'C01': dict(module='Properties.C01', file='Properties/C01.v', slices=['job'],
+                families=['burst', 'lifecycle', 'cancel', 'batch', 'saturate', 'persist', 'recover', 'dist', 'multiq', 'pool', 'order'],
+                quick_episodes=150, thorough_episodes=2000, crash_props=['C03'],
+                rule=SLICE_JOB_RULE, trusted_base=TB_CONC,
+                assumptions=['job-level theorem: each enqueued job is handed out by its queue at most once (Fifo/Heap refinement theorems, C04) and each payload sent to a pool node is received at most once (channel semantics)',
+                             '"eventually runs" is the progress property C03; identity of ID/data: monitors + C12']),
+    'C05': dict(module='Properties.C05', file='Properties/C05.v', slices=['job'],
+                families=['burst', 'lifecycle', 'cancel', 'batch'],
+                quick_episodes=250, thorough_episodes=3000,
+                rule=SLICE_JOB_RULE, trusted_base=TB_CONC,
+                assumptions=['"they do return" is progress (C03: every accepted job is eventually closed) plus C05_wait_stays_enabled',
+                             'Result()/Err() read the per-job response channel, which the finisher fills before it closes the job (order fixed by program order of the pool goroutine; monitored)']),
+    'C10': dict(module='Properties.C10', file='Properties/C10.v', slices=['job'],
+                families=['cancel', 'batch', 'lifecycle'],
+                quick_episodes=350, thorough_episodes=4000,
+                rule=SLICE_JOB_RULE, trusted_base=TB_CONC,
+                assumptions=['Purge on the built-in queues removes and returns the contents under one lock (PurgeValues); custom IQueue implementations without PurgeValues keep the Values()+Purge() window']),
+    'C16': dict(module='Properties.C16', file='Properties/C16.v', slices=['job'],
+                families=['burst', 'lifecycle', 'cancel'],
+                quick_episodes=350, thorough_episodes=4000,
+                rule=SLICE_JOB_RULE, trusted_base=TB_CONC,
+                assumptions=['jobs rebuilt by parseToJob from stored entries have no handle; their status word starts from whatever the entry says']),
 }
